@@ -174,6 +174,60 @@ Proof.
   rewrite <- (map_nth (eval ROps _) t (Lit 0) i). f_equal.
 Qed.
 
+(* ---- the two END cubics, end to end (slopes from f_x0 / f_xn and f_dx, then the segment formulas), three knots = Var 0..5 ---- *)
+Theorem C04_ends_are_compositions : forall (T : Type) (O : Ops T) (x0 y0 x1 y1 x2 y2 : T) (i : nat), (i < 5)%nat ->
+  let env := [x0; y0; x1; y1; x2; y2] in
+  let f1 := eval O env e_fdx in
+  eval O env (first_e i) = eval O [eval O [y1; y0; x1; x0; f1] e_fx0; x0; y0; f1; x1; y1] (coef_e i) /\
+  eval O env (last_e i) = eval O [f1; x1; y1; eval O [y2; y1; x2; x1; f1] e_fxn; x2; y2] (coef_e i).
+Proof.
+  intros T O x0 y0 x1 y1 x2 y2 i Hi env f1.
+  assert (C : closed_below 6 (coef_e i) = true).
+  { do 5 (destruct i as [|i]; [vm_compute; reflexivity|]). lia. }
+  assert (E0 : eval O env fx0_c = eval O [y1; y0; x1; x0; f1] e_fx0).
+  { unfold fx0_c. rewrite eval_subst by (vm_compute; reflexivity). reflexivity. }
+  assert (En : eval O env fxn_c = eval O [y2; y1; x2; x1; f1] e_fxn).
+  { unfold fxn_c. rewrite eval_subst by (vm_compute; reflexivity). reflexivity. }
+  split.
+  - unfold first_e. rewrite eval_subst by exact C.
+    change (map (eval O env) [fx0_c; Var 0; Var 1; e_fdx; Var 2; Var 3]) with [eval O env fx0_c; x0; y0; f1; x1; y1].
+    rewrite E0. reflexivity.
+  - unfold last_e. rewrite eval_subst by exact C.
+    change (map (eval O env) [e_fdx; Var 2; Var 3; fxn_c; Var 4; Var 5]) with [f1; x1; y1; eval O env fxn_c; x2; y2].
+    rewrite En. reflexivity.
+Qed.
+
+Definition end_slope (ya yb xa xb f : R) : R := 3 / 2 * (ya - yb) / (xa - xb) - 1 / 2 * f.
+Theorem C04_ends_float : forall (x0 y0 x1 y1 x2 y2 : F) (i : nat),
+  let env := [x0; y0; x1; y1; x2; y2] in
+  let f1 := fdx (B2R x0) (B2R y0) (B2R x1) (B2R y1) (B2R x2) (B2R y2) in
+  (1 <= i <= 4)%nat ->
+  (safe_run env (first_e i) ->
+   Rabs (B2R (fev env (first_e i))
+         - nth (i - 1) (cubic (end_slope (B2R y1) (B2R y0) (B2R x1) (B2R x0) f1) (B2R x0) (B2R y0) f1 (B2R x1) (B2R y1)) 0)
+   <= err_run env (first_e i)) /\
+  (safe_run env (last_e i) ->
+   Rabs (B2R (fev env (last_e i))
+         - nth (i - 1) (cubic f1 (B2R x1) (B2R y1) (end_slope (B2R y2) (B2R y1) (B2R x2) (B2R x1) f1) (B2R x2) (B2R y2)) 0)
+   <= err_run env (last_e i)).
+Proof.
+  intros x0 y0 x1 y1 x2 y2 i env f1 Hi.
+  destruct (C04_ends_are_compositions R ROps (B2R x0) (B2R y0) (B2R x1) (B2R y1) (B2R x2) (B2R y2) i ltac:(lia)) as [Ef El].
+  destruct (C04_end_slopes (B2R y1) (B2R y0) (B2R x1) (B2R x0) f1) as [S0 _].
+  destruct (C04_end_slopes (B2R y2) (B2R y1) (B2R x2) (B2R x1) f1) as [_ Sn].
+  assert (V0 : eval ROps [B2R y1; B2R y0; B2R x1; B2R x0; f1] e_fx0 = end_slope (B2R y1) (B2R y0) (B2R x1) (B2R x0) f1).
+  { unfold e_fx0, end_slope. unfold evals in S0. destruct k_spline__f_x0 as [|h t]; [discriminate S0|]. cbn [map hd] in *. now inversion S0. }
+  assert (Vn : eval ROps [B2R y2; B2R y1; B2R x2; B2R x1; f1] e_fxn = end_slope (B2R y2) (B2R y1) (B2R x2) (B2R x1) f1).
+  { unfold e_fxn, end_slope. unfold evals in Sn. destruct k_spline__f_xn as [|h t]; [discriminate Sn|]. cbn [map hd] in *. now inversion Sn. }
+  assert (F1 : eval ROps [B2R x0; B2R y0; B2R x1; B2R y1; B2R x2; B2R y2] e_fdx = f1) by reflexivity.
+  assert (Nth : forall l : list R, nth i (0 :: l) 0 = nth (i - 1) l 0) by (intros l; destruct i; [lia|]; replace (S i - 1)%nat with i by lia; reflexivity).
+  split; intros Hs; (eapply Rle_trans; [|apply (proj1 (running_bound env _ _ Hs eq_refl))]); right; f_equal; f_equal;
+    unfold rval, env; cbn [map]; [rewrite Ef|rewrite El]; rewrite ?F1, ?V0, ?Vn;
+    unfold cubic, coef_e, evals; destruct i as [|i]; try lia; replace (S i - 1)%nat with i by lia;
+    (destruct k_spline__segment as [|h t] eqn:Ek; [discriminate Ek|]); cbn [map tl nth];
+    rewrite <- (map_nth (eval ROps _) t (Lit 0) i); reflexivity.
+Qed.
+
 (* non-vacuity: a concrete segment input (f0, x0, y0, f1, x1, y1) = (0.8, 0.3, 1.0, 1.9, 2.1, 3.6) satisfies safe_run for all
    four coefficients (decided by exact rational arithmetic, lib/SafeDec.v), and x1 - x0 <> 0 *)
 Example C04_float_hypotheses_hold :
@@ -195,4 +249,13 @@ Example C04_interior_hypotheses_hold :
 Proof.
   cbv zeta. intros i Hi. assert (C : (i = 1 \/ i = 2 \/ i = 3 \/ i = 4)%nat) by lia.
   destruct C as [->|[->|[->| ->]]]; apply srun_sound; vm_compute; reflexivity.
+Qed.
+
+(* non-vacuity of C04_ends_float: three knots (0.3,1.0), (2.1,3.6), (4.0,5.0) satisfy safe_run for all coefficients of both end cubics *)
+Example C04_ends_hypotheses_hold :
+  let env := map of_bits [4599075939470750515; 4607182418800017408; 4611911198408756429; 4615288898129284301; 4616189618054758400; 4617315517961601024]%Z in
+  forall i, (1 <= i <= 4)%nat -> safe_run env (first_e i) /\ safe_run env (last_e i).
+Proof.
+  cbv zeta. intros i Hi. assert (C : (i = 1 \/ i = 2 \/ i = 3 \/ i = 4)%nat) by lia.
+  destruct C as [->|[->|[->| ->]]]; split; apply srun_sound; vm_compute; reflexivity.
 Qed.
